@@ -937,6 +937,9 @@ def d5_timescales(ck):
     else:
         val = rets[0].value
         anchor = fi.stmt(peel(fi, val)) if isinstance(val, ast.Name) and peel(fi, val) is not val else rets[0]
+        base = _unpadded(fi, val)
+        if base is not None:
+            anchor, val = base
         forms = ['-%s / np.log(%s[1:])' % (lag, E), '-(%s / np.log(%s[1:]))' % (lag, E), '%s / -np.log(%s[1:])' % (lag, E),
                  '-1 * %s / np.log(%s[1:])' % (lag, E), '-1.0 * %s / np.log(%s[1:])' % (lag, E), '%s / np.log(%s[1:]) * -1' % (lag, E),
                  '-%s / np.log(%s)[1:]' % (lag, E), '(-%s / np.log(%s))[1:]' % (lag, E), 'np.negative(%s) / np.log(%s[1:])' % (lag, E),
@@ -1012,6 +1015,275 @@ def d5_timescales(ck):
                  'arguments forwarded to the parameters of the same meaning',
                  'calc_imp_times(assigns, lag_time, n_states, n_times, method, sliding_window, trim) must receive each argument in the '
                  'position of the same meaning (wrong: %s)' % ', '.join(wrong))
+
+
+# padding / length normalisation of a 1-d result (its-trim-ragged)
+_PADDERS = ('np.concatenate', 'np.append', 'np.hstack', 'np.pad', 'np.resize', 'np.full', 'np.r_')
+
+
+def _is_pad_of(fi, v, name):
+    """`v` extends the array `name` at its END by filler values:
+    np.concatenate([name, <filler>]) / np.append(name, <filler>) /
+    np.hstack((name, <filler>)) / np.pad(name, (0, k), ...)."""
+    if not isinstance(v, ast.Call):
+        return False
+    cn = call_name(v)
+    if cn in ('np.concatenate', 'np.hstack') and v.args and isinstance(v.args[0], (ast.List, ast.Tuple)) and len(v.args[0].elts) == 2:
+        a, b = v.args[0].elts
+        return isinstance(a, ast.Name) and a.id == name and not any(isinstance(x, ast.Name) and x.id == name for x in walk_expr(b))
+    if cn == 'np.append' and len(v.args) >= 2:
+        a, b = v.args[0], v.args[1]
+        return isinstance(a, ast.Name) and a.id == name and not any(isinstance(x, ast.Name) and x.id == name for x in walk_expr(b))
+    if cn == 'np.pad' and len(v.args) >= 2 and isinstance(v.args[0], ast.Name) and v.args[0].id == name:
+        w = v.args[1]
+        return isinstance(w, (ast.Tuple, ast.List)) and len(w.elts) == 2 and const_value(w.elts[0]) == 0
+    return False
+
+
+def _unpadded(fi, val):
+    """(definition statement, expression) of the array that a returned Name
+    holds before an optional trailing padding: the name has exactly one
+    reaching definition that is not of the form `name = <pad of name>`, and
+    every padding definition pads the value of that one.  None otherwise."""
+    if not isinstance(val, ast.Name):
+        return None
+    ds = defs_of(fi, val)
+    if len(ds) < 2 or 'PARAM' in ds or 'UNBOUND' in ds:
+        return None
+    pads, bases = [], []
+    for d in ds:
+        v = fi.def_value(d, val.id) if isinstance(d, (ast.Assign, ast.AnnAssign)) else None
+        (pads if v is not None and _is_pad_of(fi, v, val.id) else bases).append(d)
+    if len(bases) != 1 or fi.def_value(bases[0], val.id) is None:
+        return None
+    for d in pads:
+        inner = fi.rd.defs_at(d, val.id)
+        if not inner <= (set(pads) | set(bases)):
+            return None
+    return bases[0], fi.def_value(bases[0], val.id)
+
+
+def d5_length(ck):
+    """its-trim-ragged.  implied_timescales stacks one row per lag time into a
+    2-d array, so every row must have the same length.  A row is
+    e_vals[1:] of eigenspectrum(T, n_eigs=n_times+1), and eigenspectrum
+    returns min(n_eigs, N) values (a `[:n_eigs]` truncation - C16.D4 - is an
+    upper bound only).  n_times is clipped against the UNtrimmed state
+    count, so when calc_imp_times trims, N is data dependent and can be
+    smaller than n_times + 1 for some lag times only.  Necessary: the length
+    of the row is normalised to n_times (padding), or the number of
+    eigenvalues obtained is compared with n_times, or the caller writes the
+    rows into a preallocated table instead of stacking them."""
+    rule = 'C16.D5.timescales.length'
+    mod = ck.repo.mod(TS)
+    fn, fn2 = mod.func('calc_imp_times'), mod.func('implied_timescales')
+    fi, f2 = finfo(mod, fn), finfo(mod, fn2)
+    ps = params(fn)
+    if len(ps) < 7:
+        return
+    ntm = ps[3]
+    construct = 'length of the row returned by calc_imp_times vs. n_times when the model is trimmed'
+    trims = [c for c in calls_in(fn) if _last(c) == 'trim_disconnected']
+    es = [c for c in calls_in(fn) if _last(c) == 'eigenspectrum']
+    if not trims:
+        ck.ok(rule, mod, fn, construct, 'calc_imp_times does not trim: the matrix has the requested number of states')
+        return
+    if len(es) != 1:
+        ck.missing(rule, 'eigenspectrum call in calc_imp_times (found %d)' % len(es))
+        return
+    # (a) the callee normalises the length / relates it to n_times
+    lens = ('len', 'np.size', 'np.shape')
+    rets = [r for r in returns_of(fn) if r.value is not None]
+    normalised = None
+    for r in rets:
+        cands = [r.value]
+        for n in walk_expr(r.value):
+            if isinstance(n, ast.Name):
+                for d in defs_of(fi, n):
+                    v = fi.def_value(d, n.id) if isinstance(d, (ast.Assign, ast.AnnAssign)) else None
+                    if v is not None:
+                        cands.append(v)
+        for v in cands:
+            if any(isinstance(c, ast.Call) and call_name(c) in _PADDERS for c in walk_expr(v)) and ntm in fi.derives_from(v)[0]:
+                normalised = v
+    compared = None
+    for a in fi.cfg.nodes:
+        if isinstance(a, Assume):
+            t = fi.expand(a.test)
+            has_len = any((isinstance(c, ast.Call) and call_name(c) in lens) or
+                          (isinstance(c, ast.Attribute) and c.attr in ('shape', 'size')) for c in ast.walk(t))
+            if has_len and ntm in names_loaded(t):
+                compared = a
+    if normalised is not None:
+        ck.ok(rule, mod, fi.stmt(normalised) or fn, construct, 'the row is padded to the requested length: %s' % _short(normalised, 80))
+        return
+    if compared is not None:
+        ck.ok(rule, mod, compared.owner, construct, 'the number of values obtained is compared with n_times: %s' % _short(compared.test, 80))
+        return
+    # (b) how does the caller assemble the rows?
+    cs = [c for c in calls_in(fn2) if _last(c) == 'calc_imp_times']
+    rets2 = [r for r in returns_of(fn2) if r.value is not None]
+    if len(cs) != 1 or len(rets2) != 1:
+        ck.missing(rule, 'calc_imp_times call / return of implied_timescales')
+        return
+    rv = f2.expand(rets2[0].value)
+    stacked = isinstance(rv, ast.Call) and call_name(rv) in ('np.array', 'np.asarray', 'np.vstack', 'np.stack', 'np.row_stack') or \
+        (isinstance(rv, ast.Call) and isinstance(rv.func, ast.Attribute) and rv.func.attr == 'copy' and getattr(rv, '_from_np_array', False))
+    if not stacked:
+        ck.missing(rule, 'the way implied_timescales assembles the rows is not recognised: %s' % _short(rv, 100))
+        return
+    ck.bad(rule, mod, rets[0] if rets else fn, 'calc_imp_times', construct,
+           'with trim=True the matrix decomposed is the TRIMMED one, whose size depends on the data and the lag time, while '
+           '%s was clipped against the untrimmed state count; eigenspectrum returns min(n_eigs, N) values, so the row '
+           '`%s` is shorter for lag times at which more states are trimmed, nothing pads it or compares its length with %s, '
+           'and implied_timescales stacks the rows with `%s`: ValueError (inhomogeneous shape) instead of a '
+           '(len(lag_times), n_times) table. Pad the missing timescales with nan.'
+           % (ntm, _short(fi.xu(rets[0].value), 60) if rets else '?', ntm, _short(rets2[0].value, 60)))
+
+
+# ---------------------------------------------------------------------------
+# D3 additions after the bug hunt: equality on dense counts, shape of the
+# populations read back, overwriting an existing model
+
+_SPARSE_ONLY = ('nnz', 'getnnz', 'tocsr', 'tocsc', 'tocoo', 'todense', 'toarray', 'todok', 'tolil', 'indices', 'indptr',
+                'eliminate_zeros', 'count_nonzero', 'getformat', 'format')
+_COERCE_SPARSE = ('csr_matrix', 'csc_matrix', 'coo_matrix', 'lil_matrix', 'dok_matrix', 'bsr_matrix', 'dia_matrix',
+                  'csr_array', 'csc_array', 'coo_array', 'lil_array', 'dok_array', 'find')
+
+
+def d3_equality(ck, mod):
+    """eq-dense-counts.  Container-type provenance: tcounts_ / tprobs_ are
+    whatever the builder callable returns (builders._apply_prior_counts turns
+    sparse counts into ndarray / np.matrix whenever prior counts are added)
+    or what mmread returns (ndarray for an 'array' file), so inside MSM they
+    are "dense or sparse".  An attribute that only scipy.sparse containers
+    have (`.nnz` ...) may therefore be read from an expression over them only
+    after a sparse coercion (sparse.csr_matrix(x) ...) or under an
+    issparse(...) guard."""
+    rule = 'C16.D3.equality.container'
+    fn = mod.functions.get('MSM.__eq__')
+    if fn is None:
+        ck.missing(rule, 'MSM.__eq__')
+        return
+    ck.analysed(mod, fn)
+    fi = finfo(mod, fn)
+    objs = set(params(fn)[:2])
+    fitted = ('tcounts_', 'tprobs_')
+    n = 0
+
+    def fitted_refs(e, coerced, out):
+        if isinstance(e, ast.Call) and _last(e) in _COERCE_SPARSE:
+            coerced = True
+        if isinstance(e, ast.Attribute) and e.attr in fitted and isinstance(e.value, ast.Name) and e.value.id in objs:
+            out.append((e, coerced))
+            return
+        for c in ast.iter_child_nodes(e):
+            fitted_refs(c, coerced, out)
+
+    for a in walk_local(fn):
+        if not (isinstance(a, ast.Attribute) and a.attr in _SPARSE_ONLY and isinstance(a.ctx, ast.Load)):
+            continue
+        refs = []
+        fitted_refs(fi.expand(a.value), False, refs)
+        if not refs:
+            continue
+        n += 1
+        st = fi.stmt(a)
+        guards = set()
+        for g in fi.cfg.nodes:
+            if isinstance(g, Assume) and st is not None and fi.cfg.dominates(g, st):
+                for cj in conjuncts(g.test, g.polarity) or []:
+                    if isinstance(cj, tuple) and cj[0] == 'expr' and cj[2] is True and isinstance(cj[1], ast.Call) and \
+                            _last(cj[1]) in ('issparse', 'isspmatrix') and cj[1].args:
+                        guards.add(fi.xu(cj[1].args[0]))
+        raw = [r for r, co in refs if not co and u(r) not in guards]
+        which = sorted({r.attr for r, _ in refs})
+        ck.check(not raw, rule, mod, st or a, 'MSM.__eq__', '.%s of an expression over %s' % (a.attr, ' / '.join(which)),
+                 'the operands are coerced to a scipy.sparse container (or tested with issparse) before the sparse-only attribute is read',
+                 '`%s`: `.%s` exists only on scipy.sparse containers, but %s is whatever the builder returned (every builder '
+                 'called with prior_counts returns DENSE counts, see builders._apply_prior_counts) or what mmread read back '
+                 '(ndarray for a dense file): comparing two dense matrices gives an ndarray, and `.%s` raises AttributeError, so '
+                 'MSM.load(save(m)) == m cannot be evaluated for such models. Coerce both sides, e.g. sparse.csr_matrix(x)'
+                 % (_short(a, 80), a.attr, ' / '.join('self.' + w for w in which), a.attr))
+    if not n:
+        ck.ok(rule, mod, fn, 'MSM.__eq__', 'no sparse-only attribute is read from the fitted matrices')
+
+
+def d3_shape(ck, mod):
+    """load-single-state-eqprobs.  np.loadtxt / np.genfromtxt squeeze axes of
+    length one unless ndmin is given: a per-state vector written with
+    np.savetxt comes back 0-dimensional when the model has one state."""
+    rule = 'C16.D3.save-load.shape'
+    load = mod.func('MSM.load')
+    fl = finfo(mod, load)
+    n = 0
+    for s in walk_local(load):
+        if not isinstance(s, ast.Assign):
+            continue
+        for t in s.targets:
+            if not (isinstance(t, ast.Attribute) and t.attr == 'eq_probs_'):
+                continue
+            v = fl.expand(s.value)
+            readers = [c for c in ast.walk(v) if isinstance(c, ast.Call) and _last(c) in ('loadtxt', 'genfromtxt')]
+            if not readers:
+                continue
+            n += 1
+            rc = readers[0]
+            nd = kwarg(rc, 'ndmin')
+            kept = nd is not None and isinstance(const_value(nd), int) and const_value(nd) >= 1
+            # a wrapper that restores the axis
+            for c in ast.walk(v):
+                if isinstance(c, ast.Call) and (call_name(c) in ('np.atleast_1d', 'np.ravel') or
+                                                (isinstance(c.func, ast.Attribute) and c.func.attr in ('ravel', 'flatten', 'reshape'))) \
+                        and any(x is rc for x in ast.walk(c)):
+                    if not (isinstance(c.func, ast.Attribute) and c.func.attr == 'reshape') or (c.args and const_value(c.args[0]) == -1):
+                        kept = True
+            ck.check(kept, rule, mod, s, 'MSM.load', 'dimensionality of eq_probs_ read back by load',
+                     'the populations are read back as a 1-d array whatever their length',
+                     '`%s`: np.%s squeezes axes of length one unless ndmin=1 is passed, so for a model with a single state '
+                     '(e.g. trimming leaves one state) the populations come back with shape () instead of (1,): '
+                     'not the array that was saved (indexing / len() raise)' % (_short(s, 100), _last(rc)))
+    if not n:
+        ck.missing(rule, 'the statement of MSM.load that reads eq_probs_ with np.loadtxt')
+
+
+def d3_overwrite(ck, mod):
+    """save-force-overwrite.  Truth table over the guard: a removal call that
+    cannot remove directories (os.remove / os.unlink raise for a directory,
+    os.rmdir for a non-empty one - a saved model is a non-empty directory)
+    executed only when os.path.isdir(<same path>) holds always raises."""
+    rule = 'C16.D3.save-load.overwrite'
+    save = mod.func('MSM.save')
+    fs = finfo(mod, save)
+    n = 0
+    for c in calls_in(save):
+        cn = call_name(c) or ''
+        if cn not in ('os.remove', 'os.unlink', 'os.rmdir', 'shutil.rmtree') or not c.args:
+            continue
+        st = fs.stmt(c)
+        target = fs.xu(c.args[0])
+        isdir = None
+        for g in fs.cfg.nodes:
+            if isinstance(g, Assume) and st is not None and fs.cfg.dominates(g, st):
+                for cj in conjuncts(g.test, g.polarity) or []:
+                    if isinstance(cj, tuple) and cj[0] == 'expr' and isinstance(cj[1], ast.Call) and \
+                            call_name(cj[1]) == 'os.path.isdir' and cj[1].args and fs.xu(cj[1].args[0]) == target:
+                        isdir = cj[2]
+        if isdir is None:
+            continue
+        n += 1
+        ok = (cn == 'shutil.rmtree') if isdir else (cn != 'shutil.rmtree')
+        ck.check(ok, rule, mod, st or c, 'MSM.save', 'removal of an existing model under force (guard: isdir(path) is %s)' % isdir,
+                 'the removal call fits what the guard established about the path',
+                 '`%s` is executed only when os.path.isdir(%s) is %s: %s; a saved model is always a (non-empty) directory, so '
+                 'save(path, force=True) on an existing model raises instead of overwriting it and the old model stays on disk '
+                 '(use shutil.rmtree)' % (_short(c, 60), target, isdir,
+                                          'os.remove/os.unlink raise IsADirectoryError for a directory and os.rmdir OSError for a '
+                                          'non-empty one' if isdir else 'shutil.rmtree raises NotADirectoryError for a file'))
+    if not n:
+        has_force = 'force' in params(save)
+        if has_force:
+            ck.missing(rule, 'the removal of an existing directory under `force` in MSM.save')
 
 
 def d5_ensemble(ck):
@@ -1234,8 +1506,13 @@ def check(ck):
     _guarded(ck, 'C16.D1.constructor', d1_constructor, mod)
     _guarded(ck, 'C16.D2.pipeline', d2_pipeline, mod)
     _guarded(ck, 'C16.D3.save-load', d3_saveload, mod)
-    check_spectrum(ck, 'C16.D4')
+    check_spectrum(ck, 'C16.D4', arpack_k=True)
     _guarded(ck, 'C16.D5.timescales', d5_timescales)
+    # added after the bug hunt (round 4): see the docstrings
+    _guarded(ck, 'C16.D5.timescales.length', d5_length)
+    _guarded(ck, 'C16.D3.equality.container', d3_equality, mod)
+    _guarded(ck, 'C16.D3.save-load.shape', d3_shape, mod)
+    _guarded(ck, 'C16.D3.save-load.overwrite', d3_overwrite, mod)
     _guarded(ck, 'C16.D5.ensemble', d5_ensemble)
     check_no_arg_mutation(ck, 'C16.D6.inputs-unmodified', [
         (MS, 'MSM.fit'), (TS, 'implied_timescales'), (TS, 'calc_imp_times'),
